@@ -10,7 +10,7 @@ ID = "C20"
 BUDGET = {"quick": 300, "thorough": 20000}
 EXHAUSTIVE = True
 RULE = ("a family of 21 helpers defined IN THE HARNESS with the current handlebars_helper! (so the macro is expanded from "
-        "/repo's source): every type token (str, i64, u64, f64, bool, array, object, null, Json, String, Vec<u64>) at arity "
+        "/repo's source): every type token (str, i64, u64, f64, bool, array, object, null, Json, String, Vec<u64>, u32, i32) at arity "
         "0..3 with 0..2 options, *args, **kwargs; EXHAUSTIVE: every helper x every combination of argument kinds from a pool "
         "with each JSON type, a missing path, an omitted argument and results of subexpressions (null, number) (positional and option), x strict / non-strict; used as "
         "subexpression (typed result observed through a probe) and as expression (written, escaped); oracle = the declared "
@@ -19,9 +19,14 @@ DEFINITE_FLOOR = 0.95
 POOL = [("str", "\"s<\"", "s<"), ("int", "7", 7), ("neg", "-3", -3), ("big", "18446744073709551615", 2 ** 64 - 1), ("float", "1.5", F.of(1.5)),
         ("bool", "true", True), ("null", "null", None), ("arr", "[1, 2]", [1, 2]), ("sarr", "[\"a<\", \"&b\"]", ["a<", "&b"]), ("obj", "{\"k\": \"<v>\"}", {"k": "<v>"}),
         ("path", "dv", "data"), ("missing", "nope", "MISSING"), ("omit", None, "OMIT"),
+        # an @-variable that is not set where the tag stands is a MISSING argument like an absent field
+        ("atmissing", "@nope", "MISSING"), ("idxmissing", "@index", "MISSING"), ("upmissing", "@../key", "MISSING"),
+        # integers at the ends of the 32-bit ranges (for the serde integer types u32 / i32; in range for i64 / u64)
+        ("u32max", "4294967295", 2 ** 32 - 1), ("u32over", "4294967376", 2 ** 32 + 80), ("i32max", "2147483647", 2 ** 31 - 1),
+        ("i32over", "2147483648", 2 ** 31), ("i32min", "-2147483648", -(2 ** 31)), ("i32under", "-2147483649", -(2 ** 31) - 1),
         # arguments that are RESULTS OF SUBEXPRESSIONS: a helper that returns null / a number hands over a typed value, not an absent one
         ("subnull", "(m_ident null)", None), ("subint", "(m_ident 7)", 7)]
-SHORT = [p for p in POOL if p[0] in ("str", "int", "bool", "missing", "omit", "arr", "subnull")]
+SHORT = [p for p in POOL if p[0] in ("str", "int", "bool", "missing", "omit", "arr", "subnull", "idxmissing")]
 
 
 def conv(t, v):
@@ -48,6 +53,10 @@ def conv(t, v):
         return (True, None) if v is None else (False, None)
     if t == "Json":
         return True, v
+    if t == "u32":
+        return (True, v) if isinstance(v, int) and not isinstance(v, bool) and 0 <= v < 2 ** 32 else (False, None)
+    if t == "i32":
+        return (True, v) if isinstance(v, int) and not isinstance(v, bool) and -(2 ** 31) <= v < 2 ** 31 else (False, None)
     if t == "Vec<u64>":
         ok = isinstance(v, list) and all(isinstance(x, int) and not isinstance(x, bool) and 0 <= x < 2 ** 64 for x in v)
         return (True, v) if ok else (False, None)
